@@ -654,10 +654,9 @@ def rule_declaration_wired(ctx):
     ctx.check(n_app >= 3, am.fq, "inputs, outputs and volatile outputs of an amend all contribute their edge ids", f"{n_app} append site(s) (3 confirmed by hand: inputs, outputs, volatile outputs)", f"{n_app} sites")
 
 
-# Sites of the same shape as the two for which a failing history exists (F63, F64), confirmed by reading, one reason each.
+# Sites of the same shape as those for which a failing history exists (F63; F64, repaired), confirmed by reading, one reason each.
 RUN_REPORT_SIBLINGS_NOT_JUDGED = {
     "executor.Executor.try_skip_job": "the mapping holds only outputs whose stored hash object differs while every digest and mode agrees (otherwise the check does not skip); tried with touch and chmod: empty, or no skip",
-    "executor.Executor._new_run": "needs an input that changes on disk and changes role within the hashing thread before the command starts; not reproduced",
 }
 
 
@@ -692,6 +691,7 @@ def rule_run_reports_filtered(ctx):
     mechanism and are listed, not judged.
     """
     n_sites = 0
+    seen_causes = set()
     execs = sorted((f for f in ctx.prog.all_functions() if f.module.name == "executor" and f.parent is None), key=lambda f: f.fq)
     for fi in execs:
         for c in calls_in(fi.node):
@@ -716,6 +716,7 @@ def rule_run_reports_filtered(ctx):
                 ctx.ok(fi.fq, "hash job: the cause comes with the job (listed, not judged by this rule)", "out of scope", where=ctx.where_of(fi, c))
                 continue
             n_sites += 1
+            seen_causes |= set(names)
             if fi.fq in RUN_REPORT_SIBLINGS_NOT_JUDGED:
                 ctx.ok(fi.fq, f"report with cause {'/'.join(names)}: same shape as the judged sites, no failing history shown (listed, not judged)", RUN_REPORT_SIBLINGS_NOT_JUDGED[fi.fq], where=ctx.where_of(fi, c))
                 continue
@@ -737,7 +738,7 @@ def rule_run_reports_filtered(ctx):
                       f"hashes reported with cause {'/'.join(names)} are restricted, where they are recorded, to nodes still in the role they were collected in",
                       "the mapping was collected before the command or a hashing thread and is recorded as it is: a path that a new declaration gave another role meanwhile has no transition for this cause, update_file_hashes raises ConsistencyError and the director dies",
                       "selected by get_state() in the recording function", where=ctx.where_of(fi, c))
-    ctx.control(n_sites >= 5, "step-run report sites found in executor", f"only {n_sites} update_file_hashes sites with a literal SUCCEEDED/FAILED cause (5 confirmed by hand)")
+    ctx.control(n_sites >= 3 and {"SUCCEEDED", "FAILED"} <= seen_causes, "step-run report sites found in executor", f"only {n_sites} update_file_hashes sites with causes {sorted(seen_causes)} (confirmed by hand: outputs at completion and at a skip with SUCCEEDED, outputs and changed inputs with FAILED)")
 
 
 RULES = [
@@ -763,6 +764,9 @@ def _drop_trigger(name, file):
 
 
 MUTANTS = [
+    Mutant("changed-inputs-recorded-whatever-they-became", "executor.py", in_function("Executor._record_changed_inputs", replace_once("        self.workflow.update_file_hashes(still_recorded, cause=HashUpdateCause.FAILED)\n", "        self.workflow.update_file_hashes(inp_hashes, cause=HashUpdateCause.FAILED)\n")), ("R-C09-13",)),
+    Mutant("changed-inputs-selection-lets-volatile-through", "executor.py", in_function("Executor._record_changed_inputs", replace_once("                FileState.BUILT,\n            ):", "                FileState.BUILT,\n                FileState.VOLATILE,\n            ):")), ("R-C09-13",)),
+    Mutant("changed-inputs-before-the-command-recorded-directly", "executor.py", in_function("Executor._new_run", replace_once("                self._record_changed_inputs(new_inp_hashes)\n", "                self.workflow.update_file_hashes(new_inp_hashes, cause=HashUpdateCause.FAILED)\n")), ("R-C09-13",)),
     Mutant("recording-helper-with-cause-parameter-unfiltered", "executor.py", lambda t: (t.replace("                self._record_written_outputs(new_out_hashes)\n", "                self._record_any(new_out_hashes, HashUpdateCause.FAILED)\n", 1).replace("    def _record_written_outputs(self, out_hashes: Mapping[str, FileHash]) -> None:\n", "    def _record_any(self, out_hashes, cause) -> None:\n        self.workflow.update_file_hashes(out_hashes, cause=cause)\n\n    def _record_written_outputs(self, out_hashes: Mapping[str, FileHash]) -> None:\n", 1)) if "                self._record_written_outputs(new_out_hashes)\n" in t else None, ("R-C09-13",)),
     Mutant("dropped-run-report-negative-selection", "executor.py", in_function("Executor._record_written_outputs", replace_once("file.get_state() in FILE_STATES_BY_ROLE[FileRole.OUTPUT]", "file.get_state() not in FILE_STATES_BY_ROLE[FileRole.STATIC]")), ("R-C09-13",)),
     Mutant("dropped-run-report-unfiltered", "executor.py", in_function("Executor._record_written_outputs", replace_once("        self.workflow.update_file_hashes(still_outputs, cause=HashUpdateCause.FAILED)\n", "        self.workflow.update_file_hashes(out_hashes, cause=HashUpdateCause.FAILED)\n")), ("R-C09-13",)),
